@@ -430,7 +430,9 @@ def o10(h, st):
     else:
         f2, _ = h.call(BK, "Backend.simulate", sims, c)
     # (the symbolic backend accepts n_shots but reports the exact distribution, listing outcomes of probability ~1e-33: compared with a tolerance)
-    f2 = {k: float(v) for k, v in f2.items() if abs(float(v)) > 1e-9}
+    # (sympy reports frequencies as symbolic numbers that may carry an imaginary round-off of ~1e-17)
+    h.check("sampled mode: frequencies are real numbers", all(abs(complex(v).imag) < 1e-9 for v in f2.values()))
+    f2 = {k: complex(v).real for k, v in f2.items() if abs(complex(v)) > 1e-9}
     h.check("sampled mode: outcomes inside the exact support, keyed qubit 0 first", set(f2) <= set(probs) and all(len(k) == n for k in f2), detail=f"{f2} vs {probs}")
     h.check("sampled mode: frequencies sum to one", abs(sum(f2.values()) - 1) < 1e-6)
     if st["backend"] == "cirq":
